@@ -342,7 +342,12 @@ func castRecordBatch(batch arrow.RecordBatch, targetSchema *arrow.Schema) (arrow
 			cols[i] = srcCol
 			continue
 		}
-		datum, err := compute.CastDatum(ctx, compute.NewDatum(srcCol), compute.SafeCastOptions(targetType))
+		// NewDatum retains the column's data; release that reference once the
+		// kernel is done, or the source buffers stay pinned after the input
+		// batch itself has been released.
+		srcDatum := compute.NewDatum(srcCol)
+		datum, err := compute.CastDatum(ctx, srcDatum, compute.SafeCastOptions(targetType))
+		srcDatum.Release()
 		if err != nil {
 			// Release already-cast columns
 			for j := range i {
